@@ -113,8 +113,10 @@ func runFaults(name string, ch vrt.Chooser) explore.Outcome {
 }
 
 type faultParams struct {
-	Script string `json:"script"`
-	Bound  int    `json:"bound"`
+	Script   string `json:"script"`
+	Bound    int    `json:"bound"`
+	ShardIdx int    `json:"shard_idx,omitempty"`
+	ShardN   int    `json:"shard_n,omitempty"`
 }
 
 func init() {
@@ -133,7 +135,7 @@ func init() {
 		}
 		// warm-up: process-wide caches of the production decoration fill on first use
 		runFaults(p.Script, &explore.FixedChooser{})
-		cfg := explore.Config{Bound: p.Bound}
+		cfg := explore.Config{Bound: p.Bound, ShardIdx: p.ShardIdx, ShardN: p.ShardN}
 		if j.BudgetS > 0 {
 			cfg.Deadline = time.Now().Add(time.Duration(j.BudgetS) * time.Second)
 		}
@@ -172,8 +174,14 @@ func init() {
 			if tier != "thorough" && (strings.Contains(n, "sync") || strings.Contains(n, "idle")) {
 				bb = 0 // timers wake every connection: the interleavings of all of them are thorough-tier work
 			}
-			p, _ := json.Marshal(faultParams{Script: n, Bound: bb})
-			jobs = append(jobs, check.Job{Kind: "c08s3", Name: "S3:fault-" + n, Params: p, BudgetS: budget, CrashIsViolation: true})
+			shards := 1
+			if tier == "thorough" && bb > 0 {
+				shards = 8 // the subtrees below the first-level alternatives, dealt round-robin to worker processes
+			}
+			for i := 0; i < shards; i++ {
+				p, _ := json.Marshal(faultParams{Script: n, Bound: bb, ShardIdx: i, ShardN: shards})
+				jobs = append(jobs, check.Job{Kind: "c08s3", Name: "S3:fault-" + n, Params: p, BudgetS: budget, CrashIsViolation: true})
+			}
 		}
 		return jobs
 	})
